@@ -225,7 +225,13 @@ def visit(
                     node = tuple(node)
                 else:
                     # Create new node with edited values (immutable-friendly)
-                    values = {k: getattr(node, k) for k in node.keys} | dict(edits)
+                    values = {k: getattr(node, k) for k in node.keys}
+                    for edit_key, edit_value in edits:
+                        values[edit_key] = (
+                            None
+                            if edit_value is REMOVE or edit_value is Ellipsis
+                            else edit_value
+                        )
                     node = node.__class__(**values)
             idx = stack.idx
             keys = stack.keys
